@@ -68,6 +68,16 @@ class C19(CheckBase):
                 inner['ops'] = []
                 inner['fault'] = None
                 inner['globals'] = rng.choice([[], [], ['--ui', 'watford'], ['--ui', 'opus'], ['--drive', '0' + (s0.volumes[0].label or '')]])
+                v0 = inner['image']['surfaces'][0]['volumes'][0]
+                if v0['files'] and rng.chance(0.2):
+                    # a file whose name starts with a dash, reached the way the manual says: after the -- terminator
+                    f0 = rng.choice(v0['files'])
+                    f0['name'] = b'-' + bytes(rng.choice(b'XYZabc09') for _ in range(rng.randint(0, 5)))
+                    f0['dir'] = ord('$')
+                    v0['files'] = [f for f in v0['files'] if f is f0 or (f['dir'], f['name'].upper()) != (f0['dir'], f0['name'].upper())]
+                    which = rng.choice(['type', 'type', 'list', 'dump'])
+                    inner['cmd'] = [which] + (['--binary'] if which == 'type' and rng.chance(0.3) else []) + ['--', f0['name'].decode('latin-1')]
+                    inner['globals'] = ['--drive', '0' + (s0.volumes[0].label or '')]
         else:
             inner = c08.CHECK.gen_case(rng, tier, index)
             # the one concrete hazard the property names is the default dialect: leave it out more often
@@ -114,7 +124,7 @@ class C19(CheckBase):
         files = {}
         names = []
         for i, ent in enumerate(inner['inputs']):
-            nm = 'in%d.bbc' % i
+            nm = ent.get('name') or 'in%d.bbc' % i
             names.append(nm)
             d = c08.CHECK.materialise(ent)
             if d is not None:
